@@ -333,8 +333,12 @@ def _check_c04(jobs, results, rep, tot):
                 # a view that deviates from a clean one only by inputs that the C03 monitor
                 # classified (root cause of a recorded finding) inherits that classifier
                 classes = [None]
-                if not e0.get("c03") and e1.get("c03") and "None" not in e1["c03"]:
-                    classes = list(e1["c03"])     # every deviation of that view is classified
+                both = sorted(set(e0.get("c03") or []) | set(e1.get("c03") or []))
+                if both and "None" not in both and e1.get("c03"):
+                    # every data-flow deviation of the two executions is classified (when no
+                    # execution of the scenario is free of deviations the least deviating view
+                    # is the reference)
+                    classes = list(e1["c03"]) if not e0.get("c03") else both
                 for cls in classes:
                     rep.report(
                         dict(prop="C04", kind="view-differs", cls=cls, sim=d[0] if d else None,
